@@ -97,7 +97,8 @@ def plan(ctx):
     strs = [('str', ctx.pick(3, 4), i, 64, 'full') for i in range(64)] + \
            [('str', ctx.pick(4, 5), i, 64, 'core') for i in range(64)]
     rnd = [('rnd', ctx.pick(1500, 30000), i) for i in range(16)]
-    return [('shard_codepoints', cps), ('shard_strings', strs), ('shard_random', rnd)]
+    return [('shard_codepoints', cps), ('shard_strings', strs), ('shard_random', rnd),
+            ('shard_long', [('long', i, 16) for i in range(16)])]
 
 
 def shard_codepoints(ctx, shard):
@@ -187,5 +188,51 @@ def shard_random(ctx, shard):
     return res
 
 
+LONG_LENGTHS = (255, 256, 257, 511, 512, 513, 514, 1023, 1024, 1025, 2047, 2048, 2049, 4095, 4096, 4097, 8191, 8192, 8193,
+                16383, 16384, 16385, 32769, 65537, 70001)
+LONG_UNITS = ['a', 'a1.b,', 'ab ', ' ', '\n', 'ab \\x{c}$d$%e\n', '\\', '{}', '%', 'a\x00', '\\left(', 'é', '$', '\\\\']
+
+
+def long_strings():
+    """Long token runs and long inputs: one unit repeated up to a given total length (block / chunk sizes), alone and
+    with a different token kind in front of and behind it."""
+    for n in LONG_LENGTHS:
+        for u in (LONG_UNITS if n <= 16385 else ['a', 'ab \\x{c}$d$%e\n']):
+            body = (u * (n // len(u) + 1))[:n]
+            yield body, u, n, 'bare'
+            if n <= 8193:
+                yield '{' + body + '}\\x', u, n, 'wrapped'
+                yield 'b' + body, u, n, 'shifted'
+            if n <= 16385 and u != 'a':
+                yield '{' + body + 'a}', u, n, 'followed-by-letter'
+
+
+def shard_long(ctx, shard):
+    _, idx, nshard = shard
+    H.import_repo()
+    res = H.Result()
+    seen = set()
+    for k, (s, u, n, how) in enumerate(long_strings()):
+        if k % nshard != idx:
+            continue
+        try:
+            check_string(s, 'long-string')
+        except H.Violation as v:
+            if v.kind not in seen:
+                seen.add(v.kind)
+                v.case['src'] = s if len(s) <= 600 else s[:300] + '...'
+                v.case['long'] = {'unit': u, 'length': n, 'how': how}
+                res.violations.append(v.record())
+            continue
+        res.case((u, n, how), True, sample={'unit': u, 'length': n, 'how': how}, classes=['long:length>=%d' % (n // 1024 * 1024), 'long:' + how])
+    return res
+
+
 def replay(case):
+    if case.get('long'):
+        L = case['long']
+        for s, u, n, how in long_strings():
+            if (u, n, how) == (L['unit'], L['length'], L['how']):
+                check_string(s, 'long-string')
+        return
     check_string(case['src'], case.get('sub', 'replay'))
